@@ -45,7 +45,7 @@ CK = ['none', 'str', 'dict', 'flagT', 'flagF', 'callable']
 OUT = [None, True, False, 0, '', 'no', {'e': 1}, [1], 'raise',
        1, 1.0, 2, -1, 0.0, [], {}, 'True', 'raise-type']
 KIND = ['polling', 'websocket', 'jsonp']
-SRV = ['T', 'A', 'H']      # H: the asyncio server behind the real aiohttp adapter
+SRV = ['T', 'A', 'H', 'N']  # H / N: the asyncio server behind the real aiohttp / tornado adapter
 DEFAULT = (25, 20, 10 ** 6, True, None, 'none', None, 'polling')
 
 
@@ -70,7 +70,8 @@ def cookie_cfg(name):
 def cells(tier, seed):
     allc = list(itertools.product(
         range(len(PI)), range(len(PT)), range(len(MB)), range(2),
-        range(3), range(len(CK)), range(len(OUT)), range(3), range(3)))
+        range(3), range(len(CK)), range(len(OUT)), range(3),
+        range(len(SRV))))
     return allc
 
 
@@ -133,6 +134,19 @@ def _cell(rec, sim, case, pi, pt, mb, au, tr, cookie_expect, out, okind,
           'open request raised %r' % (t.exc,), case)
         return
     connects = [e for e in sim.events if e['ev'] == 'connect']
+    if getattr(t, 'late_refusal', False) and (
+            open_transport not in allowed or
+            not (out is None or out is True)):
+        # tornado had answered the handshake 101 before the package saw the
+        # request: the 400 / 401 (and the value it carries) could not be
+        # sent, the connection was closed instead. The rest of the rejection
+        # is judged below with the answer the package meant to give
+        rec.count('late_refusals_on_tornado')
+        V(rec, 'tornado-websocket-refusal-status', 'open over WebSocket that '
+          'must be answered %s was answered %r on the wire; the package then '
+          'meant %r, connection closed=%r' % (
+              '400' if open_transport not in allowed else '401',
+              t.wire_status, t.status, h.ws.server_closed), case)
     # transport not allowed: must be refused, nothing created
     if open_transport not in allowed:
         if (t.code != 400 and not (okind == 'websocket' and srv == 'A' and
@@ -562,13 +576,13 @@ def plan(tier, seed):
                     for w in range(m):
                         c = list(d)
                         c[i], c[j] = v, w
-                        for s in (0, 1, 2):
+                        for s in range(len(SRV)):
                             one.add(tuple(c) + (s,))
         chosen = sorted(one) + rng.sample(allc, 2000)
     # websocket driver unavailable: small sub-grid
     extra = [(0, 0, 2, a, tr, 0, o, k, s, False)
              for a in (0, 1) for tr in (0, 1) for o in (0, 2)
-             for k in (0, 1) for s in (0, 1, 2)]
+             for k in (0, 1) for s in range(len(SRV))]
     chosen = list(chosen) + extra
     rng.shuffle(chosen)
     n = 16
